@@ -2,10 +2,11 @@ import ArrowModel.C18.Lemmas
 /-
 C18 — property statements.
 
-(a) `stream_truncation_exact`, `stream_truncation_prefix`, `stream_roundtrip`
+(a) `stream_truncation_exact`, `stream_truncation_prefix`, `stream_roundtrip`,
+    `push_truncation_exact`, `push_truncation_prefix` (StreamDecoder)
 (b) `trailerCheck_reject_iff`, `truncated_footer_rejected_unless_trailer` (+ Parquet / IPC
     instances), `truncated_footer_rejected_of_no_inner_magic`, `short_prefix_rejected`
-(c) `sink_prefix`, `sink_ok_complete`, `sink_benign_ok`
+(c) `sink_prefix`, `sink_ok_complete`, `sink_benign_ok`, `writer_source_shape`
 (d) `records_truncation`
 -/
 namespace ArrowModel.C18
@@ -126,6 +127,54 @@ theorem stream_roundtrip (f : Bytes → Option Nat) (o : Opts) (msgs : List Msg)
   rw [h, specDecode_full _ _ _
     (by rw [encodeStream_length]; exact Nat.le_refl _)]
   simp
+
+/-- **Truncated IPC stream through the push decoder** (`StreamDecoder::decode` on the prefix
+as one buffer, then `finish`).  For every message list, either framing, EOS marker or not, and
+every truncation length `k` of the written stream, the push decoder yields exactly the messages
+`specDecodePush` counts — a frame is complete when it lies within the `k` bytes, except that a
+frame with an empty body needs one more byte to be completed (the `Body` state is processed
+only while the buffer is non-empty) — unmodified and in order; `finish` succeeds only at `k = 0`
+or after a complete end-of-stream marker... or, without a marker, exactly at the end of the last
+frame with a non-empty body; every other cut is "Unexpected End of Stream". -/
+theorem push_truncation_exact (f : Bytes → Option Nat) (o : Opts) (msgs : List Msg)
+    (hwf : ∀ m ∈ msgs, WFMsg o f m) (eos : Bool) (k : Nat)
+    (hk : k ≤ (encodeStream o msgs eos).length) :
+    pushAll f ((encodeStream o msgs eos).take k) =
+      (((msgs.take (specDecodePush (msgs.map (fun m => (frameLen o m, m.body.length)))
+          (if eos then prefixSize o else 0) k).1).map (wire o)),
+       (specDecodePush (msgs.map (fun m => (frameLen o m, m.body.length)))
+          (if eos then prefixSize o else 0) k).2) := by
+  induction msgs generalizing k with
+  | nil =>
+    simp only [encodeStream, List.map_nil, specDecodePush, List.take_nil]
+    exact pushAll_tail f o eos k hk
+  | cons m ms ih =>
+    have hm := hwf m (List.mem_cons_self ..)
+    have hms : ∀ x ∈ ms, WFMsg o f x := fun x hx => hwf x (List.mem_cons_of_mem _ hx)
+    simp only [encodeStream] at hk
+    simp only [encodeStream, List.map_cons, specDecodePush]
+    have hstep := pushNext_frame_take f o m hm (encodeStream o ms eos) k hk
+    have hlen : (encodeMsg o m ++ encodeStream o ms eos).length = frameLen o m + (encodeStream o ms eos).length := by
+      simp [encodeMsg_length]
+    by_cases hc : frameLen o m < k ∨ (frameLen o m = k ∧ m.body.length ≠ 0)
+    · simp only [hc, if_true] at hstep ⊢
+      rw [pushAll_of_msg hstep, ih hms _ (by omega)]
+      simp [wire]
+    · simp only [hc, if_false] at hstep ⊢
+      by_cases hk0 : k = 0
+      · simp only [hk0, if_true] at hstep ⊢
+        rw [pushAll_of_clean hstep]; simp
+      · simp only [hk0, if_false] at hstep ⊢
+        rw [pushAll_of_short hstep]; simp
+
+
+/-- prefix form for the push decoder -/
+theorem push_truncation_prefix (f : Bytes → Option Nat) (o : Opts) (msgs : List Msg)
+    (hwf : ∀ m ∈ msgs, WFMsg o f m) (eos : Bool) (k : Nat)
+    (hk : k ≤ (encodeStream o msgs eos).length) :
+    (pushAll f ((encodeStream o msgs eos).take k)).1 <+: msgs.map (wire o) := by
+  rw [push_truncation_exact f o msgs hwf eos k hk]
+  exact List.IsPrefix.map _ (List.take_prefix _ _)
 
 /-- the length word written (`padded_metadata_len`) is the length of metadata + padding that
 follows it, for every positive alignment (`MetadataLayout::new`) -/
@@ -263,6 +312,19 @@ theorem sink_benign_ok (calls : List Call) (sched : List Resp) (hs : ∀ r ∈ s
   have hok := runWriter_benign calls sched [] hs
   have := sink_ok_complete calls sched hok
   exact Prod.ext this hok
+
+
+/-- **Source shape of the modelled write paths.**  `sink_benign_ok`/`sink_ok_complete` are about
+writers whose every byte goes through `write_all`; these items (regenerated from /repo) are lost
+as soon as a bare `.write(` appears in `FileWriter::finish`, `StreamWriter::finish`,
+`write_continuation`, `write_encoded_data`/`write_eos`, the `W: Write` sink
+(`write_slice`, `write_record_batch`), the IPC file header, or the Parquet header / footer /
+`TrackedWrite::write_all`, or when their sequence of calls changes. -/
+theorem writer_source_shape :
+    (SHAPE_FILE_FINISH_lost || SHAPE_STREAM_FINISH_lost || SHAPE_FILE_HEADER_lost ||
+      SHAPE_WRITE_CONTINUATION_lost || SHAPE_WRITE_ENCODED_lost || SHAPE_WRITE_SLICE_lost ||
+      SHAPE_WRITE_RECORD_BATCH_lost || SHAPE_PARQUET_FOOTER_lost || SHAPE_PARQUET_HEADER_lost ||
+      SHAPE_TRACKED_WRITE_ALL_lost) = false := by decide
 
 /-- non-trivial schedule: a short write, an interrupt, then a failure in the second call -/
 example : runWriter [.short 2, .interrupted, .ok, .fail] [] [.write [1, 2, 3], .flush, .write [4, 5]] =
